@@ -267,11 +267,16 @@ Definition iterate_root (k : list N) (r : option (tree V)) : list (list N * V) :
 
 (** Well-formedness: children strictly sorted by label, and no value-less node with
     fewer than two children. *)
+Fixpoint all_gt (c : N) (f : forest V) : bool :=
+  match f with
+  | FNil => true
+  | FCons c' _ r => (c <? c') && all_gt c r
+  end.
+
 Fixpoint sorted_f (f : forest V) : bool :=
   match f with
   | FNil => true
-  | FCons c _ r =>
-      (match r with FNil => true | FCons c' _ _ => c <? c' end) && sorted_f r
+  | FCons c _ r => all_gt c r && sorted_f r
   end.
 
 Fixpoint wfb (t : tree V) : bool :=
